@@ -62,11 +62,18 @@ CHECKS = {
         text="For seeded workloads (parallelise with a logging function, scan.time_course, scan.steady_state; int/str/tuple keys; results 0..70 kB; sequential or simulated pool) the histories 'no cache -> run killed at p [-> killed again] -> rerun -> rerun' are executed for EVERY line-level kill point inside mxlpy/parallel.py (exhaustive per workload), sampled kill points in all mxlpy frames, and byte-granular torn writes of every result file (whole process or single worker dies). Rerun must complete and equal the cache-free reference for every key; a further run must recompute nothing; an uninterrupted cached run must equal the reference.",
         note="Process-kill semantics only (what reached the OS survives; no power-loss reordering). C-level writes inside pickle.dump are interrupted only through the path seam. In-process SimPool: one task is in flight at a time, several simultaneously torn files are approximated by double-crash histories.",
     ),
+    "C20": dict(
+        engine="fit", category="exploration", design_ref="DESIGN.md §4.8",
+        technique="deterministic simulation through the minimiser seam: a scripted candidate sequence (start point, true values, repeats, candidates whose integration is made to fail) is evaluated on the one shared model copy the routine keeps mutating; each evaluation compared with the shipped loss recomputed on a fresh model; honesty runs with the real scipy minimiser; before/after snapshots of the caller's model",
+        text="REDUCED SCOPE (the history-shaped clauses only): every residual evaluation, whatever was evaluated before it on the shared model, equals the shipped loss between the data and the prediction of a fresh model at exactly that candidate (standard scaling with the data's mean/std; parameters and initial values routed by name); a failed integration gives inf; with the real LocalScipyMinimizer the returned loss is <= the loss at the start point and equals the loss recomputed at the returned values; with copying enabled the caller's model is unchanged.",
+        note="NOT decided: 'every shipped loss is smallest at a perfect prediction and does not reward size' - algebraic laws of seven pure functions with no schedule, fault or history in them. A real optimiser raising (values the solver refuses) is counted, not charged.",
+    ),
 }
 
 ENGINES = [
     {"name": "simkit", "path": "simkit/", "serves_properties": sorted(CHECKS), "kind_free_text": "seeded scheduler core: labelled PRNG streams, fork-based runner with watchdog, trace digests, ddmin shrinker, replay files, known-finding matching, evidence writer"},
     {"name": "crash", "path": "simkit/machines/crash.py", "serves_properties": ["C19"], "kind_free_text": "crash-history machine: fork+settrace kill points, CrashPath torn writes (simkit/crashfs.py), SimPool (simkit/simpool.py)"},
+    {"name": "fit", "path": "simkit/machines/fit.py", "serves_properties": ["C20"], "kind_free_text": "fit machine: SimMinimizer seam, fresh-model residual oracle, honesty runs"},
     {"name": "mca", "path": "simkit/machines/mca.py", "serves_properties": ["C18"], "kind_free_text": "MCA machine: sequential vs SimPool schedules, snapshots, analytic power-law sensitivities"},
     {"name": "scans", "path": "simkit/machines/scans.py", "serves_properties": ["C09"], "kind_free_text": "scan-schedule machine: SimPool (simkit/simpool.py), Faulty/ExactLinear integrators, independent-row oracle"},
     {"name": "simtime", "path": "simkit/machines/simtime.py", "serves_properties": ["C04", "C14"], "kind_free_text": "simulator-history machine: reference model of time keeping, closed-form families (simkit/models.py), integrator seam (simkit/integrators.py)"},
